@@ -19,7 +19,7 @@ REQUIRED_THEOREMS = [
     'generate_reports_flow_at_any_depth', 
     'frame', 'frame_history', 'history_log', 'history_invariant',
     'add_rejects_existing', 'add_creates', 'add_plain_exact', 'add_list_repeated_key_rejected',
-    'add_list_later_existing_rejected', 'move_exact_two', 'divide_flow_rule',
+    'add_list_later_existing_rejected', 'move_exact_two', 'divide_flow_rule', 'split_dict_shares_partition',
     'delete_partial', 'delete_frame', 'delete_keys', 'delete_by_path_witness',
     'delete_tuple_key_deletes_nothing', 'divide_removes_mother', 'move_exact',
     'order_table', 'order_sequential', 'order_add_then_delete',
